@@ -13,6 +13,22 @@ Local Arguments env_build : simpl never.
 
 (** ** The shape of a merged hint: it is either at least both sides' hints, or it is one side's hint while the
     other side has none.  Every branch of [pick_level_hint] (away from the registry) is covered. *)
+Lemma pick_level_hint_cases_strong : forall fl sn inn o i h,
+  fl_inner_is_registry fl = false ->
+  pick_level_hint fl sn inn o i = Some h ->
+  (exists x y, o = Some x /\ i = Some y /\ frank x <= frank h /\ frank y <= frank h) \/
+  (o = None /\ i = Some h /\ fl_inner_has_psf fl = false /\ (sn = true \/ inn && hint_is_off i = false)) \/
+  (o = Some h /\ i = None /\ fl_has_psf fl = false /\ sn = false).
+Proof.
+  intros [reg hp ip] sn inn o i h Hr H. simpl in Hr. subst reg. unfold pick_level_hint in H. cbn [fl_inner_is_registry fl_has_psf fl_inner_has_psf] in *.
+  destruct hp, ip, sn, inn; destruct o as [[[]|]|]; destruct i as [[[]|]|]; vm_compute in H; try discriminate H;
+    inversion H; subst; clear H;
+    first [ left; eexists; eexists; split; [reflexivity|]; split; [reflexivity|]; split; vm_compute; discriminate
+          | right; left; split; [reflexivity|]; split; [reflexivity|]; split; [reflexivity|];
+            first [left; reflexivity | right; reflexivity]
+          | right; right; repeat split; reflexivity ].
+Qed.
+
 Lemma pick_level_hint_cases : forall fl sn inn o i h,
   fl_inner_is_registry fl = false ->
   pick_level_hint fl sn inn o i = Some h ->
@@ -20,23 +36,8 @@ Lemma pick_level_hint_cases : forall fl sn inn o i h,
   (o = None /\ i = Some h) \/
   (o = Some h /\ i = None).
 Proof.
-  intros fl sn inn o i h Hr H. unfold pick_level_hint in H. rewrite Hr in H.
-  destruct (fl_has_psf fl && fl_inner_has_psf fl).
-  { destruct o as [x|], i as [y|]; try discriminate H. inversion H; subst. left. exists x, y.
-    rewrite frank_lf_max. repeat split; lia. }
-  destruct (fl_has_psf fl && hint_is_none i); [discriminate H|].
-  destruct (fl_inner_has_psf fl && hint_is_none o); [discriminate H|].
-  assert (M : forall o i, hint_max o i = Some h ->
-              (exists x y, o = Some x /\ i = Some y /\ frank x <= frank h /\ frank y <= frank h) \/
-              (o = None /\ i = Some h) \/ (o = Some h /\ i = None)).
-  { clear. intros [x|] [y|] H; simpl in H; try discriminate H; inversion H; subst; auto.
-    left. exists x, y. rewrite frank_lf_max. repeat split; lia. }
-  destruct sn.
-  { destruct i as [y|]; [|discriminate H]. apply M. exact H. }
-  destruct (inn && hint_is_off i) eqn:E.
-  { apply andb_true_iff in E. destruct E as [_ E]. apply hint_is_off_eq in E. subst i. subst o.
-    left. exists h, OFF. simpl. repeat split; lia. }
-  apply M. exact H.
+  intros fl sn inn o i h Hr H.
+  destruct (pick_level_hint_cases_strong fl sn inn o i h Hr H) as [A | [[A [B _]] | [A [B _]]]]; auto.
 Qed.
 
 (** at the registry the hint is the outer layer's alone *)
